@@ -1,6 +1,7 @@
 import HdVerif.Proofs.Volume
 import HdVerif.Proofs.VolumeOrient
 import HdVerif.Proofs.VolumeChannels
+import HdVerif.Proofs.VolumeOnto
 /-! # C08  Volume operations never move a voxel in physical space
 
 Property theorems only (helper lemmas: `Proofs/Volume.lean`; model: `Model/Volume.lean`).
@@ -102,6 +103,29 @@ volume's geometry (shape and affine). -/
 theorem history_geometry_twin (coord : Coord) (v : Vol) (ops : List Op) (w : VStep) (hp : v.geom.Pos)
     (h : runHistory coord v ops = .ok w) : runHistoryGeom coord v.geom ops = .ok w.1.geom :=
   runHistory_geom ops hp h
+
+/-- A scaled orthogonal affine never puts two voxels at the same physical position. -/
+theorem positions_are_unique (g : Geom) (ho : g.Orth) (i j : I3) (h : g.pos i = g.pos j) : i = j :=
+  pos_injective ho h
+
+/-- **No voxel is duplicated** over any history: two voxels of the final volume never show the same original voxel. -/
+theorem no_voxel_duplicated (coord : Coord) (v : Vol) (ops : List Op) (w : VStep) (hp : v.geom.Pos) (ho : v.geom.Orth)
+    (h : runHistory coord v ops = .ok w) (j j' i : I3) (hj : w.2 j = some i) (hj' : w.2 j' = some i) : j = j' := by
+  have s := runHistory_pos ops hp h
+  exact pos_injective (s.orth ho) (((s.retained j i hj).1).trans ((s.retained j' i hj').1).symm)
+
+/-- **No voxel is lost** by the operations that only rearrange or extend the grid (flip, permute, swap, pad,
+pad_to_spatial_shape, to_patient_orientation, ensure_handedness, copy): every voxel of the input is shown by a voxel of
+the result — for the geometry-level index map and for the provenance of a volume. -/
+theorem rearranging_op_keeps_every_voxel (coord : Coord) (g : Geom) (op : SOp) (r : GStep) (hp : g.Pos)
+    (hk : op.keepsAll = true) (h : op.applyGeom coord g = .ok r) (i : I3) (hi : g.inRange i = true) :
+    ∃ j, r.1.inRange j = true ∧ r.2 j = i :=
+  applyG_onto AxMap.size szOk_size hp hk h i hi
+
+theorem volume_op_keeps_every_voxel (coord : Coord) (v : Vol) (op : SOp) (w : VStep) (hp : v.geom.Pos)
+    (hk : op.keepsAll = true) (h : op.applyVol coord v = .ok w) (i : I3) (hi : v.geom.inRange i = true) :
+    ∃ j, w.1.geom.inRange j = true ∧ w.2 j = some i :=
+  applyVol_onto hp hk h i hi
 
 /-! ## indexing arithmetic (CPython `slice.indices` + translated T10a) -/
 
